@@ -34,6 +34,7 @@ type Violation struct {
 	Kinds     []string          `json:"kinds"`
 	Logs      []string          `json:"logs,omitempty"`
 	Count     int               `json:"count"`
+	Threads   int               `json:"threads"`
 }
 
 type HarnessResult struct {
@@ -196,6 +197,7 @@ func (w *World) runPath(solver *Solver, fn *ssa.Function, dec []int, wantModel b
 		pr.viol.Decisions = e.taken
 		pr.viol.Kinds = e.kinds
 		pr.viol.Logs = e.vlogs
+		pr.viol.Threads = len(e.sch.threads)
 	}
 	return pr
 }
